@@ -22,13 +22,16 @@ pub struct SetMon<T: El> {
     pub split_calls: u64,
     pub old_hits: u64,
     pub by_code: BTreeMap<&'static str, u64>,
+    /// enforce the per-call work bound (only when C02 is the property under check)
+    pub work_rules: bool,
+    pub max_hashes: u64,
 }
 
 impl<T: El> SetMon<T> {
     pub fn new(cap: usize, bh: Bh) -> Self {
         let live_base = ledger_live();
         let set = if cap == usize::MAX { HashSet::with_hasher(bh) } else { HashSet::with_capacity_and_hasher(cap, bh) };
-        SetMon { set, model: BTreeMap::new(), bh, live_base, nops: 0, calls: 0, split_calls: 0, old_hits: 0, by_code: BTreeMap::new() }
+        SetMon { set, model: BTreeMap::new(), bh, live_base, nops: 0, calls: 0, split_calls: 0, old_hits: 0, by_code: BTreeMap::new(), work_rules: false, max_hashes: 0 }
     }
 
     pub fn locate(&self, k: u64) -> Location {
@@ -45,7 +48,55 @@ impl<T: El> SetMon<T> {
                 self.old_hits += 1;
             }
         }
+        let present0 = op_has_key(op.code) && self.model.contains_key(&op.k);
+        let h0 = hash_count();
+        let a0 = table_allocs();
         let r = catch(|| self.exec(op));
+        let hashes = hash_count() - h0;
+        let tallocs = table_allocs() - a0;
+        if self.work_rules && r.as_ref().map_or(false, |x| x.is_ok()) {
+            use Code::*;
+            let rr = st0.r as u64;
+            let st1 = self.set.verif_state();
+            // (exact for lookups/removals, upper bound for calls that add the value)
+            let (exact, bound): (Option<u64>, Option<u64>) = match op.code {
+                SContains | SGet | SRemove | STake => (Some(1), None),
+                SInsert | SReplace => (None, Some(1 + rr)),
+                SGetOrInsert | SGetOrInsertOwned | SGetOrInsertWith => {
+                    if present0 {
+                        (Some(1), None)
+                    } else {
+                        (None, Some(2 + rr))
+                    }
+                }
+                _ => (None, None),
+            };
+            if let Some(e) = exact {
+                if hashes != e {
+                    viol!("C02", "set {} performed {} hash computations, expected {}", op.encode(), hashes, e);
+                }
+                if st1 != st0 && matches!(op.code, SContains | SGet) {
+                    viol!("C02", "set lookup {} changed the table state", op.encode());
+                }
+                if alloc_oracles_available() && tallocs != 0 {
+                    viol!("C02", "set {} allocated a table", op.encode());
+                }
+            }
+            if let Some(b) = bound {
+                if hashes > b {
+                    viol!("C02", "set {} performed {} hash computations, bound is {}", op.encode(), hashes, b);
+                }
+                if alloc_oracles_available() && tallocs > 1 {
+                    viol!("C02", "set {} performed {} table allocations", op.encode(), tallocs);
+                }
+                let l0 = st0.old.as_ref().map_or(0, |o| o.table.len);
+                let l1 = st1.old.as_ref().map_or(0, |o| o.table.len);
+                if st0.old.is_some() && l0 > l1 + st0.r + 1 {
+                    viol!("C02", "set {} moved {} elements (R = {})", op.encode(), l0 - l1, st0.r);
+                }
+            }
+            self.max_hashes = self.max_hashes.max(hashes);
+        }
         match r {
             Err(p) => {
                 if p.contains("harness/src") {
@@ -498,6 +549,7 @@ fn set_op<T: El>(rng: &mut Rng, mon: &SetMon<T>, keyspace: u64, max_len: usize, 
 fn run_set_ops<T: El>(cfg: &Cfg, ops: &[Op]) -> Result<(), (Viol, usize)> {
     ledger_reset();
     let mut mon: SetMon<T> = SetMon::new(cfg.cap, cfg.bh);
+    mon.work_rules = cfg.focus == "C02";
     for (i, op) in ops.iter().enumerate() {
         if let Err(v) = mon.step(op) {
             std::mem::forget(mon);
@@ -532,6 +584,7 @@ pub fn replay_set(r: &Replay, path: &str) -> i32 {
 fn set_history<T: El>(rng: &mut Rng, cfg: &Cfg, keyspace: u64, n: usize, max_len: usize, noforget: bool) -> (Vec<Op>, Result<(u64, u64, u64), Viol>) {
     ledger_reset();
     let mut mon: SetMon<T> = SetMon::new(cfg.cap, cfg.bh);
+    mon.work_rules = cfg.focus == "C02";
     let mut ops = Vec::new();
     for _ in 0..n {
         let op = set_op(rng, &mon, keyspace, max_len, noforget);
@@ -785,7 +838,7 @@ pub fn sets(a: &Args, rep: &mut Report) {
         let elem = *hr.pick(&[ElemKind::U64, ElemKind::TrInline, ElemKind::TrHeap]);
         let mode = *hr.pick(&[HMode::Good, HMode::Good, HMode::Identity, HMode::SameGroup, HMode::SameTag, HMode::LowEntropy, HMode::Const]);
         let slow = matches!(mode, HMode::Const | HMode::LowEntropy | HMode::SameGroup);
-        let cfg = Cfg { elem, bh: Bh::new(mode, hr.below(4)), cap: *hr.pick(&[usize::MAX, 0, 3, 7, 14, 28]), check_every: 1, cursor_every: 1, focus: "" };
+        let cfg = Cfg { elem, bh: Bh::new(mode, hr.below(4)), cap: *hr.pick(&[usize::MAX, 0, 3, 7, 14, 28]), check_every: 1, cursor_every: 1, focus: static_prop(&rep.prop) };
         let keyspace = *hr.pick(&[8u64, 40, 200, 1000]);
         let n = if small { 20 + hr.usize(40) } else { 40 + hr.usize(260) };
         let max_len = if small { 60 } else if slow { 140 } else { 500 };
